@@ -762,7 +762,7 @@ pub fn run(shard: &Shard) -> Report {
             let seen = rep.violation_counts.get(sig).cloned().unwrap_or(0);
             let mut r = replay.clone().set("violation", sig.clone());
             let mut what = what.clone();
-            if seen < 1 || shard.replay.is_some() {
+            if seen < 1 {
                 let cut = (*at_step).min(ops.len() - 1);
                 let min = shrink(cs, policy, &ops[..=cut], sig);
                 what = format!("{what}; minimal history ({} ops): {}", min.len(), clip(summarize(&min).to_string(), 400));
